@@ -273,7 +273,8 @@ def run(spec, ctx):
                     if r.random() < 0.1 and not (i % 5 == 4):
                         check_query_case(ctx, ast, doc, text, "random:other-container-types", impl_doc=gen.exotic(doc, r))
                     elif r.random() < 0.25:
-                        name, env = r.choice(equivalent_envs())
+                        # (a text without any backslash has no escape sequence to decode: it means the same where decoding is off)
+                        name, env = r.choice(equivalent_envs() + ([escapes_off()] * 3 if "\\" not in text else []))
                         check_query_case(ctx, ast, doc, text, "random:" + name, env=env)
                         ctx.cell("configurations", name)
                     else:
@@ -290,6 +291,17 @@ def run(spec, ctx):
     for k, v in hooks.STATE.sel_matrix.items():
         ctx.cell("H1_selector_x_kind", "|".join(k), v)
     ctx.count("H2_matches_checked", hooks.STATE.h2_checked)
+
+
+_ESC_OFF = []
+
+
+def escapes_off():
+    if not _ESC_OFF:
+        import jsonpath
+
+        _ESC_OFF.append(("escape-decoding-off", jsonpath.JSONPathEnvironment(unicode_escape=False)))
+    return _ESC_OFF[0]
 
 
 REQUIRED_H1 = [
